@@ -215,3 +215,14 @@ def enumerate_small(max_nodes=3, max_branches=3, kinds=None):
                                         'cs_ideal': dict(I=complex(v, 2)), 'cs_lossy': dict(I=complex(-v, 1), Y=complex(0.5, v))}[k]
                                 desc.append(dict(n1=a, n2=b, id=f'{"ZYX"[i % 3]}{i}', kind=k, args=args))
                             yield dict(branches=desc, zero=zero)
+
+def ymax_json(jnet):
+    """largest finite branch admittance magnitude of a driver-JSON network (for tolerances)"""
+    m = 1.0
+    for b in jnet['branches']:
+        a = abs(core.cfloat(b['e']['a']))
+        if b['e']['k'] == 'N':
+            if a > 0: m = max(m, 1.0 / a)
+        else:
+            m = max(m, a)
+    return m
